@@ -104,32 +104,5 @@ Proof. unfold m_step. intros H HI HB HQ E0 E1 H0 H1.
         destruct (StrictlyGreaterThanZero (Some (oa_res x))) eqn:Epos; [|apply Same; reflexivity]. exfalso.
         destruct (find_alloc_some _ _ _ Ex) as [Hx _]. destruct (qi_allocs _ HQ a x Hina Hx) as [Wx Sx].
         destruct (find_queue_some _ _ _ E0) as [Hq0 _].
-        match type of E1 with find_queue (add_counts ?S _ _) _ = _ => change (find_queue S id = Some q1) in E1 end.
-        apply (q_dec_queue _ _ _ _ q0) in E1; [|exact E0]. destruct E1 as [->| ->]; [congruence|].
-        rewrite q_minus_not_over in H1; [discriminate|apply HQ; assumption|exact Wx|apply HB; assumption|exact Sx| |exact H0].
-        apply (StrictlyGreaterThanZero_spec _ Wx) in Epos. exact (proj1 Epos).
-      * destruct (find_alloc (ap_requests a) key) as [x|]; [|apply Some_inj in H; subst s'; apply Same; reflexivity].
-        destruct (ttype =? TT_Timeout)%N; [apply Some_inj in H; subst s'; apply Same; reflexivity|].
-        unfold m_release_ask in H. destruct (oa_allocated x || _); [discriminate|]. apply Some_inj in H; subst s'.
-        match type of E1 with context [q_dec_pending ?S ?L ?R] => destruct (q_dec_pending_queues S L R) as (g & Eg & Hg) end.
-        eapply (Lim _ g); [|destruct (_ && _); exact Eg|exact Hg]. reflexivity.
-  - destruct (st_events st) as [|e evs].
-    + destruct (Z.eqb _ _); [|discriminate]. apply Some_inj in H; subst s'. apply Same; reflexivity.
-    + destruct (negb (no_release_events (e :: evs))); [discriminate|].
-      destruct (is_new_alloc_for (e :: evs)) as [[[key a] nid]|] eqn:Enew; [|discriminate].
-      destruct (find_app s a) as [ap|] eqn:Eapp; [|discriminate]. destruct (find_app_some _ _ _ Eapp) as [Hina _].
-      destruct (m_sched_alloc_inv _ _ _ _ _ _ H) as (ask & n & n' & s1 & a2 & Eask & En & _ & _ & _ & _ & _ & Eg & _ & Etry & _ & _ & _ & (g & Eq & Hg)).
-      destruct (find_alloc_some _ _ _ Eask) as [Hask Ek].
-      assert (Rk : req_ok ask) by (eapply (si_reqs _ HI); eassumption). destruct Rk as [Wr _].
-      assert (Sr : rsmall (oa_res ask)) by (eapply (bd_reqs _ HB); eassumption).
-      exfalso. destruct (q_try_inc_only_path _ _ _ _ Etry) as (_ & _ & _ & _ & _ & Hfind). specialize (Hfind id). rewrite E0 in Hfind.
-      rewrite (find_queue_limits s1 s' g id _ q1 Eq Hg Hfind E1 k) in H1.
-      destruct (memN id (path_ids s (ap_queue ap))) eqn:Epath; [|congruence].
-      destruct (find_queue_some _ _ _ E0) as [Hq0 Hid0].
-      assert (Hanc : In q0 (ancestors s (ap_queue ap))).
-      { apply memN_In in Epath. rewrite path_ids_anc in Epath. apply in_map_iff in Epath. destruct Epath as (q & Eid & Hq).
-        pose proof (ancestors_find _ _ _ Hq) as Ef. rewrite Eid, E0 in Ef. inversion Ef; subst q. exact Hq. }
-      destruct (q_try_inc_inv _ _ _ _ Etry) as [Hfit _]. specialize (Hfit q0 Hanc).
-      destruct (has (oa_res ask) k) eqn:Ehas.
-      * rewrite q_fits_not_over in H1; [discriminate|exact Wr|exact Sr|apply HB; assumption|apply HQ; assumption|exact Hfit|exact Ehas].
-      * rewrite q_plus_other in H1 by assumption. congruence. Qed.
+        cbn [add_counts] in E1. Set Printing Depth 16. match type of E1 with ?T => idtac T end.
+Abort.
